@@ -89,7 +89,22 @@ def classes(split=None):
                 P.field(c.name, f.name, f.type)
             for m in c.dmethods + c.vmethods:
                 P.method(c.name, m.name, m.ret, m.params)
-    cl = {'A': [A], 'B': [B], None: [A, B]}[split]
+    C = Cls('LC;', sfields=[Fld('c1', 'I', 9), Fld('c2', 'Ljava/lang/String;', 9)])        # no methods: its own file has no code item
+    if split in ('C', 'ALL'):
+        plain_extra = extra
+
+        def extra(P):
+            plain_extra(P)
+            for f in C.sfields:
+                P.field(C.name, f.name, f.type)
+    if split in ('A3', 'B3'):                 # A / B as files of the three-file split: they also reference LC;'s members
+        plain_extra2 = extra
+
+        def extra(P):
+            plain_extra2(P)
+            for f in C.sfields:
+                P.field(C.name, f.name, f.type)
+    cl = {'A': [A], 'B': [B], None: [A, B], 'C': [C], 'ALL': [A, B, C], 'A3': [A], 'B3': [B]}[split]
     return cl, extra
 
 
@@ -346,10 +361,11 @@ def resolve(P, i, k):
     return {'f': lambda: tuple(P.f_list[k]), 'm': lambda: tuple(P.m_list[k]), 's': lambda: P.s_list[k], 't': lambda: P.t_list[k]}[tab]()
 
 
-def cross_region(idx, P):
-    """a symbolic field operand of LA;->m1 selects a field that LB; defines"""
+def cross_region(idx, P, defined=None):
+    """a symbolic field operand of LA;->m1 selects a field that another analysed class defines"""
+    defined = DEFINED_FIELDS if defined is None else defined
     return z3.Or([e == k for i, e in idx.items() if not isinstance(i, str) and SLOTS[i][3] == 'f'
-                  for k, ff in enumerate(P.f_list) if tuple(ff) in DEFINED_FIELDS and ff[0] != 'LA;'] + [z3.BoolVal(False)])
+                  for k, ff in enumerate(P.f_list) if tuple(ff) in defined and ff[0] != 'LA;'] + [z3.BoolVal(False)])
 
 
 def setup():
@@ -476,12 +492,18 @@ def replay(w):
 
 
 # ------------------------------------------------------------------ C16: one DEX vs the same classes split over two
+DEFINED_FIELDS3 = DEFINED_FIELDS | {('LC;', 'c1', 'I'), ('LC;', 'c2', 'Ljava/lang/String;')}
+
+
 def job16(jc, spec):
     which, group = spec
+    three = group.endswith('/3')
+    group = group[:-2] if three else group
     dex, analysis = setup()
-    blob1, P1, L1 = assemble()
-    blobA, PA, LA = assemble('A')
-    blobB, PB, LB = assemble('B')
+    blob1, P1, L1 = assemble('ALL' if three else None)
+    blobA, PA, LA = assemble('A3' if three else 'A')
+    blobB, PB, LB = assemble('B3' if three else 'B')
+    blobC = assemble('C')[0] if three else None
     items1, idx, pre = overlay(blob1, P1, L1, group)
     offs, _ = slot_offsets()
     itemsA = list(blobA)
@@ -499,7 +521,7 @@ def job16(jc, spec):
         m = SInt(mapped, 0, 0xffffffff)
         itemsA[o:o + n] = le_bytes(m, n)
     eng = jc.new_engine(pre=pre)
-    label = 'C16 %s' % group
+    label = 'C16 %s%s' % (group, ' (three files, one without code)' if three else '')
 
     class AdlerByLen:
         """three files are parsed on one path: the checksum stub answers per buffer length"""
@@ -507,19 +529,19 @@ def job16(jc, spec):
         calls = []
         def adler32(self, b, *a): return self.t[len(b)]
     saved = dex.zlib
-    dex.zlib = AdlerByLen([blob1, blobA, blobB])
+    dex.zlib = AdlerByLen([blob1, blobA, blobB] + ([blobC] if three else []))
 
     def go():
         try:
             s1 = snapshot(analyse(dex, analysis, [items1]))
-            s2 = snapshot(analyse(dex, analysis, [itemsA, blobB]))
-            s3 = snapshot(analyse(dex, analysis, [blobB, itemsA]))
+            s2 = snapshot(analyse(dex, analysis, [itemsA, blobB] + ([blobC] if three else [])))
+            s3 = snapshot(analyse(dex, analysis, ([blobC] if three else []) + [blobB, itemsA]))
         except (Inconclusive, Abort):
             raise
         return s1, s2, s3
 
     def ext(m):
-        return dict(prop='C16', group=group, idx={str(i): m.eval(e, model_completion=True).as_long() for i, e in idx.items()})
+        return dict(prop='C16', group=group + ('/3' if three else ''), idx={str(i): m.eval(e, model_completion=True).as_long() for i, e in idx.items()})
     try:
         for pc, (kind, r) in eng.explore(go, keep_pcs=True):
             jc.reached('explored')
@@ -528,7 +550,7 @@ def job16(jc, spec):
                 continue
             s1, s2, s3 = r
             diff = snap_diff(s1, s2) or snap_diff(s1, s3)
-            jc.obligation(eng, pc, z3.BoolVal(not diff), ext, {'c14_accessor_class': cross_region(idx, P1)}, label=label,
+            jc.obligation(eng, pc, z3.BoolVal(not diff), ext, {'c14_accessor_class': cross_region(idx, P1, DEFINED_FIELDS3 if three else None)}, label=label,
                           what='split/ordered analysis differs from the single-DEX analysis: %s' % (diff or ''))
         eng.partition_guard()
     finally:
@@ -550,8 +572,9 @@ def snap_diff(a, b):
 def run16(ctx):
     setup()
     ctx.functions_encoded = FUNCS
-    groups = ['fields', 'methods', 'jumbo+types'] + (['fields2', 'methods2', 'methods3', 'strings+types'] if ctx.thorough else [])
-    ctx.bounds = dict(class_set='LA; + LB; as one DEX, and as two DEX files added in both orders',
+    groups = ['fields', 'methods', 'jumbo+types', 'methods/3', 'fields/3'] + (['fields2', 'methods2', 'methods3', 'strings+types', 'jumbo+types/3'] if ctx.thorough else [])
+    ctx.bounds = dict(class_set='LA; + LB; as one DEX, and as two DEX files added in both orders; groups marked /3: LA; + LB; + LC; '
+                      '(a class without methods, so that its file has no code item) as one DEX and as three files in two orders',
                       symbolic='the operands of one slot group, mapped through each file\'s own index space by an ite chain over the same variable',
                       groups=groups)
     ctx.stubs = ['SymStruct / SymIO', 'adler32 stub answering per file', 'NullLogger']
@@ -572,9 +595,11 @@ def _concrete16(w):
             @staticmethod
             def adler32(b, *a): return _z.adler32(bytes(b))
         dex.zlib = Z
-    blob1, P1, L1 = assemble()
-    blobA, PA, LA = assemble('A')
-    blobB, PB, LB = assemble('B')
+    three = w.get('group', '').endswith('/3')
+    blob1, P1, L1 = assemble('ALL' if three else None)
+    blobA, PA, LA = assemble('A3' if three else 'A')
+    blobB, PB, LB = assemble('B3' if three else 'B')
+    blobC = assemble('C')[0] if three else None
     offs, _ = slot_offsets()
     b1, bA = bytearray(blob1), bytearray(blobA)
     for i, k in w.get('idx', {}).items():
@@ -589,7 +614,7 @@ def _concrete16(w):
         bA[oA:oA + n] = kA.to_bytes(n, 'little')
     b1, bA = dexasm.fix_checksum(bytes(b1)), dexasm.fix_checksum(bytes(bA))
     outs = []
-    for files in ([b1], [bA, blobB], [blobB, bA]):
+    for files in ([b1], [bA, blobB] + ([blobC] if three else []), ([blobC] if three else []) + [blobB, bA]):
         dx = analysis.Analysis()
         for f in files:
             dx.add(dex.DEX(f))
